@@ -237,7 +237,7 @@ pub fn run(report: &Report, thorough: bool) -> Evidence {
             o.english = bits & 1 != 0;
             o.ansi = bits & 2 != 0;
             o.psugg = bits & 4 == 0;
-            let st = histgraph::bfs(
+            let st = histgraph::bfs_shadow(
                 |w| {
                     let mut o = o.clone();
                     o.xdg = scratch_xdg(&format!("c02b-{}-{}", bits, w));
@@ -262,6 +262,12 @@ pub fn run(report: &Report, thorough: bool) -> Evidence {
                     }
                     v.push(Ev::Bs);
                     v.push(Ev::Finish);
+                    // commit of every candidate (the composition restarts; the next list's auxiliary text must too)
+                    if let Some(r) = shown {
+                        for i in 0..r.len().max(1) {
+                            v.push(Ev::Commit(i));
+                        }
+                    }
                     v
                 },
                 |ctx, step| {
@@ -288,6 +294,7 @@ pub fn run(report: &Report, thorough: bool) -> Evidence {
                     }
                 },
                 |_| true,
+                |h| format!("composing:{}", typed_text(h)),
             );
             total.states += st.states;
             total.transitions += st.transitions;
@@ -332,10 +339,16 @@ pub fn run(report: &Report, thorough: bool) -> Evidence {
                 &BTreeMap::new(),
                 &[],
                 depth,
-                |_h, _shown, _ctx| {
+                |_h, shown, _ctx| {
                     let mut v = keys.clone();
                     v.push(Ev::Bs);
                     v.push(Ev::Finish);
+                    if let Some(r) = shown {
+                        v.push(Ev::Commit(0));
+                        if r.len() > 1 {
+                            v.push(Ev::Commit(r.len() - 1));
+                        }
+                    }
                     v
                 },
                 |ctx, step| {
